@@ -401,6 +401,25 @@ func compareTable(f formula, boolAtoms, intAtoms []string, spec func(e env) bool
 	}
 	sort.Strings(res.Unknown)
 	if len(res.Unknown) > 0 {
+		// Atoms the rule does not name: the guard is still decided when it agrees with the specification for
+		// EVERY value of those atoms (a condition that cancels out, such as `x.IsValid()` tested on both sides of a
+		// hoisted local). Only a guard whose truth really depends on an uninterpreted atom is undecided.
+		var ub, ui []string
+		for _, a := range res.Unknown {
+			if fb[a] {
+				ub = append(ub, a)
+			} else {
+				ui = append(ui, a)
+			}
+		}
+		if len(ub) > 8 || len(ui) > 2 {
+			return res
+		}
+		all := compareTable(f, append(append([]string{}, boolAtoms...), ub...), append(append([]string{}, intAtoms...), ui...), spec)
+		if len(all.Unknown) == 0 && all.Mismatch == "" {
+			all.Rows /= 1
+			return all
+		}
 		return res
 	}
 	e := env{B: map[string]bool{}, I: map[string]int64{}}
